@@ -873,10 +873,7 @@ class DynGraph(nx.Graph):
         >>> G.add_star([0,1,2,3], t=0)
         """
         nlist = list(nodes)
-        if len(nlist) == 0:
-            return
-        v = nlist[0]
-        interaction = ((v, n) for n in nlist[1:])
+        interaction = ((nlist[0], n) for n in nlist[1:])
         self.add_interactions_from(interaction, t)
 
     def add_path(self, nodes, t=None):
